@@ -155,3 +155,92 @@ def make_cdxml(fname, kind, key):
         if kind == "key":
             return cf[key]
         return cf._parse_fragment(cf.xfrags[int(key)], name=f"frag{key}")
+
+
+# ------------------------------------------------------------------------------------------------
+# histories: a molecule that was inspected and edited through public calls before hydrogens are added
+
+EDITS = ["rewire", "rewire", "repoint", "repoint", "reappend", "replace", "replace", "remove_substituent",
+         "del_bond", "connect", "del_atom"]
+
+
+def _degree(m, a):
+    return sum(1 for b in m.bonds if a is b.a1 or a is b.a2)
+
+
+def _bonded(m, a, b):
+    return any((x.a1 is a and x.a2 is b) or (x.a1 is b and x.a2 is a) for x in m.bonds)
+
+
+def random_edit(m, rnd):
+    """One random public edit; returns its description or None when not applicable.  Edits that keep the NUMBER
+    of bonds (rewire, repoint, reappend, replace, remove_substituent of a one-atom substituent) are favoured."""
+    import molli.chem as mc
+    kind = rnd.choice(EDITS)
+    atoms, bonds = list(m.atoms), list(m.bonds)
+    if kind in ("rewire", "repoint", "reappend", "del_bond") and bonds:
+        b = rnd.choice(bonds)
+        if kind == "del_bond":
+            m.del_bond(b)
+            return kind
+        if kind == "reappend":
+            m.del_bond(b)
+            m.append_bond(b)
+            return kind
+        end = rnd.choice(["a1", "a2"])
+        keep = b.a2 if end == "a1" else b.a1
+        cand = [x for x in atoms if x is not b.a1 and x is not b.a2 and _degree(m, x) < 3 and not _bonded(m, x, keep)]
+        if not cand:
+            return None
+        j = rnd.choice(cand)
+        if kind == "repoint":
+            setattr(b, end, j)                       # a bond's endpoint re-pointed in place
+        else:
+            bt = b.btype
+            m.del_bond(b)
+            m.connect(j, keep, btype=bt)
+        return f"{kind}"
+    leaves = [x for x in atoms if _degree(m, x) == 1]
+    if kind in ("replace", "remove_substituent") and leaves:
+        x = rnd.choice(leaves)
+        bx = next(b for b in bonds if x is b.a1 or x is b.a2)
+        p = bx.a2 if bx.a1 is x else bx.a1
+        if kind == "remove_substituent":
+            m.remove_substituent(p, x, ap_label="AP")
+            return kind
+        pos = np.array(m.get_atom_coord(x), dtype=float)
+        m.del_atom(x)
+        y = m.new_atom(rnd.choice(["C", "C", "N", "O", "F", "Si"]), coord=pos)
+        m.connect(p, y, btype=mc.BondType[rnd.choice(["Single", "Single", "Double"])])
+        return kind
+    if kind == "connect" and len(atoms) >= 2:
+        a, b = rnd.sample(atoms, 2)
+        if _degree(m, a) < 3 and _degree(m, b) < 3 and not _bonded(m, a, b):
+            m.connect(a, b)
+            return kind
+        return None
+    if kind == "del_atom" and len(atoms) > 1:
+        m.del_atom(rnd.choice(atoms))
+        return kind
+    return None
+
+
+def replace_hydrogen(m, rnd, n_before):
+    """One of the hydrogens a previous call added is replaced by a carbon 1.5 A away (chain extension)."""
+    atoms = list(m.atoms)
+    hs = [x for x in atoms[n_before:] if x.element.symbol == "H" and _degree(m, x) == 1]
+    if not hs:
+        return None
+    h = rnd.choice(hs)
+    bh = next(b for b in m.bonds if h is b.a1 or h is b.a2)
+    c = bh.a2 if bh.a1 is h else bh.a1
+    if _degree(m, c) > 3:
+        return None
+    v = np.array(m.get_atom_coord(h), dtype=float) - np.array(m.get_atom_coord(c), dtype=float)
+    if not np.isfinite(v).all() or np.linalg.norm(v) < 1e-6:
+        return None
+    pos = np.array(m.get_atom_coord(c), dtype=float) + v / np.linalg.norm(v) * 1.5
+    m.del_atom(h)
+    y = m.new_atom("C", coord=pos)
+    m.connect(c, y)
+    return "hydrogen->carbon"
